@@ -3,13 +3,20 @@
 package main
 
 import (
+	"bufio"
 	"bytes"
 	"fmt"
+	"io"
+	"net"
+	"net/http"
 	"os"
 	"regexp"
 	"strconv"
 	"strings"
 	"time"
+
+	"github.com/valyala/fasthttp"
+	"github.com/valyala/fasthttp/fasthttputil"
 )
 
 // C17 — hijacked connections are handed over intact.
@@ -23,6 +30,9 @@ func init() {
 			"non-trivial = E non-empty; distinct = distinct input",
 		Parallel: true,
 		Build: func(kind string, a [][]byte) *Case {
+			if kind == "keep" {
+				return buildHijackKeep(a)
+			}
 			if kind == "hijack2" {
 				return buildHijack2(a)
 			}
@@ -195,6 +205,10 @@ func init() {
 				if r.Chance(25) {
 					pre += "n"
 				}
+				if i%25 == 0 && len(E) > 0 {
+					// kept hijacked connections whose owners close them (twice) or touch them after closing
+					emit("keep", N(1+r.Intn(3)), E, N(r.Intn(3)))
+				}
 				if i%10 == 0 && len(E) > 0 {
 					// the hijack handler reads late: another connection of the same server is served in between
 					emit("hijack2", B(cfg), N(r.Intn(200)), E, N(len(E)+200+r.Intn(3000)))
@@ -244,4 +258,98 @@ func b2iC17(b bool) int {
 		return 1
 	}
 	return 0
+}
+
+// buildHijackKeep: KeepHijackedConns. Several connections are hijacked and kept by the application, which closes them;
+// another connection B is hijacked afterwards; then the owners of the closed ones touch them again (a deferred second
+// Close, a late Read or Write — all of which must fail or do nothing). B must still deliver exactly the bytes its client
+// sent and carry the application's answer back.
+func buildHijackKeep(a [][]byte) *Case {
+	rounds, _ := strconv.Atoi(string(a[0]))
+	E := a[1]
+	variant, _ := strconv.Atoi(string(a[2]))
+	kept := make(chan net.Conn, 8)
+	s := &fasthttp.Server{KeepHijackedConns: true, Logger: nopLogger{},
+		Handler: func(ctx *fasthttp.RequestCtx) {
+			ctx.Hijack(func(c net.Conn) { kept <- c })
+		}}
+	note := ""
+	hijackOne := func() (client net.Conn, app net.Conn) {
+		pc := fasthttputil.NewPipeConns()
+		go s.ServeConn(pc.Conn1())
+		client = pc.Conn2()
+		client.SetDeadline(time.Now().Add(10 * time.Second))
+		fmt.Fprintf(client, "GET /hj HTTP/1.1\r\nHost: h\r\n\r\n")
+		br := bufio.NewReader(client)
+		resp, err := http.ReadResponse(br, nil)
+		if err != nil {
+			note = "no response to the hijacking request: " + err.Error()
+			return client, nil
+		}
+		resp.Body.Close()
+		select {
+		case app = <-kept:
+		case <-time.After(10 * time.Second):
+			note = "hijack handler not run"
+		}
+		return client, app
+	}
+	var got []byte
+	pong := ""
+	for r := 0; r < rounds && note == ""; r++ {
+		var olds []net.Conn
+		for i := 0; i < 3; i++ {
+			cl, app := hijackOne()
+			if app == nil {
+				break
+			}
+			app.Close() // the owner is done with it
+			cl.Close()
+			olds = append(olds, app)
+		}
+		clB, appB := hijackOne()
+		if appB == nil {
+			break
+		}
+		for _, o := range olds {
+			switch variant {
+			case 0:
+				o.Close()
+			case 1:
+				o.SetReadDeadline(time.Now().Add(50 * time.Millisecond))
+				o.Read(make([]byte, 1))
+			default:
+				o.SetWriteDeadline(time.Now().Add(50 * time.Millisecond))
+				o.Write([]byte("junk"))
+			}
+		}
+		go func() { clB.Write(E) }()
+		buf := make([]byte, len(E))
+		appB.SetReadDeadline(time.Now().Add(5 * time.Second))
+		n, _ := io.ReadFull(appB, buf)
+		got = buf[:n]
+		appB.SetWriteDeadline(time.Now().Add(5 * time.Second))
+		appB.Write([]byte("pong"))
+		pb := make([]byte, 4)
+		clB.SetReadDeadline(time.Now().Add(5 * time.Second))
+		m, _ := io.ReadFull(clB, pb)
+		pong = string(pb[:m])
+		appB.Close()
+		clB.Close()
+		if !bytes.Equal(got, E) || pong != "pong" {
+			break
+		}
+	}
+	impl := fmt.Sprintf("read=%s pong=%q note=%q", H(got), pong, note)
+	return &Case{Impl: impl, Nontrivial: true, Tags: []string{"keep", fmt.Sprintf("keep-variant=%d", variant)},
+		Judge: func([]string) Verdict {
+			desc := fmt.Sprintf("KeepHijackedConns, %d round(s), owners of closed kept connections then %s; E=%q: %s", rounds, []string{"Close again", "Read", "Write"}[variant%3], trunc(E, 60), impl)
+			if note != "" {
+				return Verdict{VSpec, "hijack-handler-not-run", desc}
+			}
+			if !bytes.Equal(got, E) || pong != "pong" {
+				return Verdict{VSpec, "kept-hijacked-conn-disturbed", desc}
+			}
+			return Ok()
+		}}
 }
